@@ -36,6 +36,11 @@ pub struct Env {
     /// name under which the host executable runs (`current_exe()`): rustc, rust-analyzer-proc-macro-srv, ...
     #[serde(default)]
     pub host: Option<String>,
+    /// what gethostname()/uname() and getuid() report
+    #[serde(default)]
+    pub hostname: Option<String>,
+    #[serde(default)]
+    pub uid: Option<u32>,
 }
 
 impl Env {
@@ -51,6 +56,8 @@ impl Env {
             files: vec![],
             manifest_dir: None,
             host: None,
+            hostname: None,
+            uid: None,
         }
     }
 }
@@ -169,6 +176,12 @@ pub fn run_child(ctx: &Ctx, env: &Env, sched: &Schedule, durable: &Durable) -> R
     }
     if let Some(p) = env.fake_pid {
         cmd.env("VERIF_FAKE_PID", p.to_string());
+    }
+    if let Some(h) = &env.hostname {
+        cmd.env("VERIF_HOSTNAME", h);
+    }
+    if let Some(u) = env.uid {
+        cmd.env("VERIF_FAKE_UID", u.to_string());
     }
     // the only durable state: one private directory (same length of path for every process of a run)
     cmd.env("TMPDIR", &durable.path);
@@ -296,6 +309,8 @@ pub struct Corpus {
     /// groups of harvested keys that share (derive, type identifier) but differ in body:
     /// what a cache keyed too coarsely would confuse
     pub collisions: Vec<Vec<usize>>,
+    /// harvested keys that share the item text (the same item under several derives)
+    pub item_groups: Vec<Vec<usize>>,
     pub base: Vec<Key>,
     pub faults: Vec<Key>,
     pub derives: Vec<&'static str>,
@@ -336,6 +351,8 @@ fn gen_env(r: &mut Rng, discovered: &[(String, Vec<String>)]) -> Env {
         files,
         manifest_dir,
         host: if r.chance(1, 3) { Some(r.pick(crate::envmodel::HOSTS).to_string()) } else { None },
+        hostname: if r.chance(1, 3) { Some(r.pick(&["build-7", "ci-runner-03.example.org", "localhost", "x"]).to_string()) } else { None },
+        uid: if r.chance(1, 3) { Some(*r.pick(&[0u32, 1000, 1001, 65534])) } else { None },
     }
 }
 
@@ -346,7 +363,12 @@ pub struct GenStats {
 pub fn gen_session(seed: u64, index: u64, c: &Corpus) -> Session {
     let mut r = Rng::new(seed, index);
     // swarm: sizes and mixes are redrawn per session
-    let len = *r.pick(&[8usize, 12, 20, 20, 30, 40, 60, 60, 100, 160, 250, 400, 20, 40, 60, 1200]);
+    // 1 session in 12 is *hot*: thousands of requests on one to three derives (counters, caches, thresholds);
+    // 1 in 8 uses *big* family items (4x the variants / fields / type parameters)
+    let hot = r.chance(1, 12);
+    let big = r.chance(1, 8);
+    workload::SCALE.with(|s| s.set(if big { 4 } else { 1 }));
+    let len = if hot { *r.pick(&[1500usize, 3000, 5000]) } else { *r.pick(&[8usize, 12, 20, 20, 30, 40, 60, 60, 100, 160, 250, 400, 20, 40, 60, 1200]) };
     let workers = *r.pick(&[1usize, 1, 2, 2, 3, 4]);
     let n_family = r.range(1, 6);
     let n_base = r.range(3, 40);
@@ -370,9 +392,17 @@ pub fn gen_session(seed: u64, index: u64, c: &Corpus) -> Session {
     for (i, k) in c.base.iter().enumerate() {
         by_derive.entry(k.derive.as_str()).or_default().push(i);
     }
-    let derive_names: Vec<&str> = by_derive.keys().copied().collect();
+    let mut derive_names: Vec<&str> = by_derive.keys().copied().collect();
+    let n_base = if hot {
+        // keep only a few derives, but many distinct items of them (twins below add more)
+        r.shuffle(&mut derive_names);
+        derive_names.truncate(r.range(1, 3));
+        r.range(40, 120)
+    } else {
+        n_base
+    };
     for _ in 0..n_base {
-        let k = if r.chance(1, 2) && !derive_names.is_empty() {
+        let k = if (hot || r.chance(1, 2)) && !derive_names.is_empty() {
             let d = *r.pick(&derive_names);
             c.base[*r.pick(&by_derive[d])].clone()
         } else {
@@ -437,9 +467,28 @@ pub fn gen_session(seed: u64, index: u64, c: &Corpus) -> Session {
     }
     r.shuffle(&mut reqs);
     reqs.truncate(len.max(probes.len() * 2));
+    // item groups: one item under every derive the repository's tests put on it, back to back
+    if !c.item_groups.is_empty() {
+        for _ in 0..r.below(3) {
+            let g = r.pick(&c.item_groups);
+            let w = r.below(workers);
+            let at = r.below(reqs.len() + 1);
+            for (n, i) in g.iter().take(8).enumerate() {
+                let pick = c.base[*i].clone();
+                let idx = match keys.iter().position(|x| *x == pick) {
+                    Some(p) => p,
+                    None => {
+                        keys.push(pick);
+                        keys.len() - 1
+                    }
+                };
+                reqs.insert(at + n, Request { w, k: idx, mode: Mode::Catch });
+            }
+        }
+    }
     // twins: an item and its near-copy (same derive, name and arity; other variant / field names, types,
     // order) served back to back on one worker, in either order
-    for _ in 0..r.below(4) {
+    for _ in 0..(if hot { r.range(40, 200) } else { r.below(4) }) {
         let base = r.below(fault_lo.max(1));
         if let Some(t) = workload::twin(&keys[base].clone(), &mut r) {
             keys.push(t);
@@ -507,6 +556,7 @@ pub fn gen_session(seed: u64, index: u64, c: &Corpus) -> Session {
             },
         });
     }
+    workload::SCALE.with(|s| s.set(1));
     Session { index, segments }
 }
 
@@ -841,6 +891,12 @@ pub fn minimise(ctx: &Ctx, refs: &RefCache, d: &Divergence, s: &Session, seed: u
     try_env(e, &mut env_min, &mut steps);
     let mut e = env_min.clone();
     e.host = None;
+    try_env(e, &mut env_min, &mut steps);
+    let mut e = env_min.clone();
+    e.hostname = None;
+    try_env(e, &mut env_min, &mut steps);
+    let mut e = env_min.clone();
+    e.uid = None;
     try_env(e, &mut env_min, &mut steps);
     let mut e = env_min.clone();
     e.manifest_dir = None;
